@@ -314,6 +314,11 @@ func sub(elems []any, nonTerminals []lex.Token, defaultField string) ([]any, []l
 		return elems, nonTerminals, false
 	}
 
+	// make sure the parens wrap an already parsed expression and not another token
+	if _, ok := elems[1].(*expr.Expression); !ok {
+		return elems, nonTerminals, false
+	}
+
 	// we consumed two terminals, the ( and )
 	return []any{elems[1]}, drop(nonTerminals, 2), true
 }
@@ -386,8 +391,12 @@ func fuzzy(elems []any, nonTerminals []lex.Token, defaultField string) ([]any, [
 		return elems, nonTerminals, false
 	}
 
+	// the distance has to be an integer literal, not an expression that happens to print like one
 	distance, ok := elems[2].(*expr.Expression)
-	if !ok {
+	if !ok || distance.Op != expr.Literal {
+		return elems, nonTerminals, false
+	}
+	if _, isInt := distance.Left.(int); !isInt {
 		return elems, nonTerminals, false
 	}
 
@@ -431,8 +440,14 @@ func boost(elems []any, nonTerminals []lex.Token, defaultField string) ([]any, [
 		return elems, nonTerminals, false
 	}
 
+	// the power has to be a number literal, not an expression that happens to print like one
 	power, ok := elems[2].(*expr.Expression)
-	if !ok {
+	if !ok || power.Op != expr.Literal {
+		return elems, nonTerminals, false
+	}
+	switch power.Left.(type) {
+	case int, float64:
+	default:
 		return elems, nonTerminals, false
 	}
 
